@@ -49,6 +49,9 @@ func (f c20Fmt) space() bool { return strings.Contains(f.Flags, " ") }
 type c20Sample struct {
 	N   int64 `json:"n"`
 	Dur int64 `json:"dur_ns"`
+	// Plain: not a timed sample but a plain IncrInt64(N) on the bar (via-bar cases
+	// only): estimators must not hear of it
+	Plain bool `json:"plain,omitempty"`
 }
 
 type c20Case struct {
@@ -292,6 +295,9 @@ func genC20(t *rapid.T) interface{} {
 				s.Dur = rapid.Int64Range(0, int64(time.Hour)).Draw(t, "dbig")
 			default:
 				s.Dur = rapid.Int64Range(0, int64(50*time.Millisecond)).Draw(t, "d")
+			}
+			if c.ViaBar && c.AvgKind != "hybrid" && s.N > 0 && s.N < 1<<30 && rapid.IntRange(0, 6).Draw(t, "plain") == 0 {
+				s.Plain, s.Dur = true, 0
 			}
 			if c.AvgKind == "age" {
 				// progress in every sample, a few nanoseconds to a few seconds per item
@@ -900,7 +906,7 @@ type c20Hybrid struct {
 func (d *c20Hybrid) Decor(decor.Statistics) (string, int) { return d.Format("h") }
 func (d *c20Hybrid) EwmaUpdate(n int64, dur time.Duration) {
 	d.mu.Lock()
-	d.samples = append(d.samples, c20Sample{n, int64(dur)})
+	d.samples = append(d.samples, c20Sample{N: n, Dur: int64(dur)})
 	d.mu.Unlock()
 }
 func (d *c20Hybrid) AverageAdjust(time.Time) { d.mu.Lock(); d.adjusted++; d.mu.Unlock() }
@@ -971,7 +977,12 @@ func runC20Ewma(c *c20Case, wc decor.WC, st decor.Statistics, call func(decor.De
 	var carry int64
 	zeroThenProgress := false
 	pendingZero := false
+	var timed []c20Sample
 	for _, s := range c.Samples {
+		if s.Plain {
+			continue // untimed progress: no sample
+		}
+		timed = append(timed, s)
 		if s.N <= 0 {
 			carry += s.Dur
 			pendingZero = true
@@ -992,6 +1003,11 @@ func runC20Ewma(c *c20Case, wc decor.WC, st decor.Statistics, call func(decor.De
 		p := mpb.New(mpb.WithOutput(io.Discard))
 		b := p.AddBar(0, mpb.PrependDecorators(h1), mpb.AppendDecorators(d, decor.OnComplete(h2, "ok")))
 		for _, s := range c.Samples {
+			if s.Plain {
+				b.IncrInt64(s.N)
+				r.Classes = append(r.Classes, "plain-increment-between-samples")
+				continue
+			}
 			b.EwmaIncrInt64(s.N, time.Duration(s.Dur))
 		}
 		_ = b.Current() // all samples processed
@@ -1001,8 +1017,8 @@ func runC20Ewma(c *c20Case, wc decor.WC, st decor.Statistics, call func(decor.De
 			h.mu.Lock()
 			got := fmt.Sprint(h.samples)
 			h.mu.Unlock()
-			if got != fmt.Sprint(c.Samples) {
-				return fail("fan-out", fmt.Errorf("estimator %d of 3 on the bar received samples %v, the calls made were %v", i+2, got, c.Samples))
+			if got != fmt.Sprint(timed) {
+				return fail("fan-out", fmt.Errorf("estimator %d of 3 on the bar received samples %v, the timed calls made were %v (all calls: %v)", i+2, got, timed, c.Samples))
 			}
 		}
 	} else {
@@ -1010,7 +1026,7 @@ func runC20Ewma(c *c20Case, wc decor.WC, st decor.Statistics, call func(decor.De
 		if !ok {
 			return fail("unwrap", fmt.Errorf("unwrapping %v does not lead to the moving-average decorator", c.Wrap))
 		}
-		for _, s := range c.Samples {
+		for _, s := range timed {
 			ed.EwmaUpdate(s.N, time.Duration(s.Dur))
 			if c.Render {
 				// a frame drawn between two samples must not disturb the estimator
@@ -1037,7 +1053,7 @@ func runC20Ewma(c *c20Case, wc decor.WC, st decor.Statistics, call func(decor.De
 		}
 		var sumGot, sumWant float64
 		k := 0
-		for _, s := range c.Samples {
+		for _, s := range timed {
 			if s.N <= 0 {
 				continue
 			}
